@@ -22,7 +22,7 @@ struct Model {
     /// registered, unexpired stakes
     reg: HashMap<TxHash, StakeDoc>,
     /// every stake transaction accepted in this lineage, with whether the model says it registered
-    seen: HashMap<TxHash, (StakeDoc, bool)>,
+    seen: HashMap<TxHash, (StakeDoc, bool, String)>,
     /// stakes that expired (for the "spendable again" check)
     expired: Vec<(TxHash, StakeDoc)>,
 }
@@ -36,16 +36,16 @@ fn check_registry(rep: &mut Report, w: &World, m: &Model, site: &str, case_seed:
     rep.eval();
     let got: HashMap<TxHash, StakeDoc> = w.cur.verif_stakes().into_iter().collect();
     let wit = |extra: serde_json::Value| json!({"case_seed": case_seed, "origin": w.origin, "height": w.height(), "site": site, "detail": extra});
-    for (h, (doc, registers)) in m.seen.iter() {
+    for (h, (doc, registers, applied_as)) in m.seen.iter() {
         let should = m.reg.contains_key(h);
         let is = got.contains_key(h);
         if should != is {
             let cur = w.height() / STAKE_EPOCH;
             let what = if is { "registered-but-should-not-be" } else { "missing-from-registry" };
             rep.violate(
-                &format!("C13|{}|{}|{}", what, site, if *registers { "consistent-document".to_string() } else { ordering(cur, doc.e_start, doc.e_post_end) }),
+                &format!("C13|{}|{}|{}", what, site, if *registers { "consistent-document".to_string() } else { applied_as.clone() }),
                 format!("stake {:?} (start {}, end {}, current epoch {}): model says registered={}, state says {}", hex::encode(&h.0 .0[..6]), doc.e_start, doc.e_post_end, cur, should, is),
-                wit(json!({"doc": format!("{:?}", doc)})),
+                wit(json!({"doc": format!("{:?}", doc), "applied_as": applied_as})),
             );
         }
     }
@@ -108,7 +108,7 @@ fn try_spend(w: &mut World, id: CoinID, cdh: &CoinDataHeight) -> Option<(Transac
 
 pub fn run(p: &Params) -> Report {
     let mut rep = Report::new("C13");
-    rep.rule = "cases = histories on networks/heights outside the legacy windows, fabricated 1-3 blocks before an epoch boundary (k*200000) so that real seal/next_unsealed calls cross it, with pre-existing stakes ending in the current, next and later epochs and stake transactions covering every ordering of (current, start, end) epochs, equal/unequal amounts, wrong first-output denomination, undecodable documents. A stake model (registered iff first output SYM = declared amount, start > current epoch, end > start; removed when the epoch after `end` begins) is compared after every batch and block with the registered set, votes()/total_votes() for 5 epochs and the stakes_hash; every registered stake's coin is spent in an otherwise valid transaction on a clone (same block, later blocks, across the boundary) and must be refused until the epoch after `end`, then accepted. Non-trivial = each stake document applied and each spend attempt; distinct by transaction hash and height".into();
+    rep.rule = "cases = histories on networks/heights outside the legacy windows, fabricated 1-3 blocks before an epoch boundary (k*200000) so that real seal/next_unsealed calls cross it, with pre-existing stakes ending in the current, next and later epochs and stake transactions covering every ordering of (current, start, end) epochs, equal/unequal amounts, wrong first-output denomination (alone, and followed by a SYM output equal to the declared amount), undecodable documents. A stake model (registered iff first output SYM = declared amount, start > current epoch, end > start; removed when the epoch after `end` begins) is compared after every batch and block with the registered set, votes()/total_votes() for 5 epochs and the stakes_hash; every registered stake's coin is spent in an otherwise valid transaction on a clone (same block, later blocks, across the boundary) and must be refused until the epoch after `end`, then accepted. Non-trivial = each stake document applied and each spend attempt; distinct by transaction hash and height".into();
     let total = p.n(1000, 25000);
     let mine = p.share(total);
     let mut rng = Rng::new(p.shard_seed() ^ 0xC13);
@@ -144,7 +144,7 @@ pub fn run(p: &Params) -> Report {
             let doc = StakeDoc { pubkey: owners[i % 4].key.pk, e_start: s, e_post_end: en, syms_staked: CoinValue(v) };
             fab.stakes.push((txhash, doc));
             model.reg.insert(txhash, doc);
-            model.seen.insert(txhash, (doc, true));
+            model.seen.insert(txhash, (doc, true, "pre-existing".to_string()));
             let id = CoinID { txhash, index: 0 };
             fab.coins.push((id, CoinDataHeight { coin_data: CoinData { covhash: owners[i % 4].addr_new, value: CoinValue(v), denom: Denom::Sym, additional_data: Bytes::new() }, height: BlockHeight(height - 1) }));
             ids.push(id);
@@ -209,8 +209,17 @@ pub fn run(p: &Params) -> Report {
                 let variant = r.below(10);
                 let first_denom = if variant == 0 { Denom::Mel } else { Denom::Sym };
                 let data = if variant == 1 { r.bytes(r.clone().usize(50)) } else { doc.stdcode() };
-                let payload = vec![CoinData { covhash: w.owners[o].addr_new, value: CoinValue(v), denom: first_denom, additional_data: Bytes::new() }];
-                let inputs = if first_denom == Denom::Mel { inputs.into_iter().filter(|(_, c)| c.coin_data.denom == Denom::Mel).collect() } else { inputs };
+                // a non-SYM first output either alone, or followed by a SYM output that matches the document exactly
+                let sym_second = first_denom == Denom::Mel && r.chance(2, 3);
+                let payload = if sym_second {
+                    vec![
+                        CoinData { covhash: w.owners[o].addr_new, value: CoinValue(1), denom: Denom::Mel, additional_data: Bytes::new() },
+                        CoinData { covhash: w.owners[o].addr_new, value: CoinValue(staked), denom: Denom::Sym, additional_data: Bytes::new() },
+                    ]
+                } else {
+                    vec![CoinData { covhash: w.owners[o].addr_new, value: CoinValue(v), denom: first_denom, additional_data: Bytes::new() }]
+                };
+                let inputs = if first_denom == Denom::Mel && !sym_second { inputs.into_iter().filter(|(_, c)| c.coin_data.denom == Denom::Mel).collect() } else { inputs };
                 let tx = match w.complete(TxKind::Stake, inputs, payload, data, 0) {
                     Some(t) => t,
                     None => continue,
@@ -218,7 +227,7 @@ pub fn run(p: &Params) -> Report {
                 let h = tx.hash_nosigs();
                 let decodes = stdcode::deserialize::<StakeDoc>(&tx.data).is_ok();
                 let registers = stake_registers(&tx, w.height());
-                let cls = if !decodes { "undecodable-document".to_string() } else if first_denom != Denom::Sym { "first-output-not-SYM".to_string() } else if staked != v { "amount-mismatch".to_string() } else { ordering(cur_epoch, s, en) };
+                let cls = if !decodes { "undecodable-document".to_string() } else if first_denom != Denom::Sym { if sym_second { "first-output-not-SYM,second-is-the-declared-SYM".to_string() } else { "first-output-not-SYM".to_string() } } else if staked != v { "amount-mismatch".to_string() } else { ordering(cur_epoch, s, en) };
                 // same-batch spend attempt of the staked coin
                 let with_spend = r.chance(1, 4);
                 let mut batch = vec![tx.clone()];
@@ -242,12 +251,13 @@ pub fn run(p: &Params) -> Report {
                     Ok(Ok(())) => {
                         rep.count(&format!("stake applied: {} -> accepted", cls));
                         if !decodes || first_denom != Denom::Sym {
-                            rep.violate(&format!("C13|malformed-stake-accepted|apply_tx_batch|{}", cls), "a stake transaction with an undecodable document or a non-SYM first output was accepted".into(), wit.clone());
+                            // accepting it is not what the statement forbids; registering it is (check_registry below)
+                            rep.count("accepted a stake transaction with an undecodable document or a non-SYM first output (must not register)");
                         }
                         if n_batch == 2 && registers.is_some() {
                             rep.violate("C13|staked-coin-spent|apply_tx_batch|same-batch", "the staked coin was spent in the batch that created the stake".into(), wit.clone());
                         }
-                        model.seen.insert(h, (doc, registers.is_some()));
+                        model.seen.insert(h, (doc, registers.is_some(), cls.clone()));
                         if let Some(d) = registers {
                             model.reg.insert(h, d);
                         }
